@@ -146,5 +146,110 @@ theorem lcp_le : ∀ a b : Nibs, lcpLen a b ≤ a.length ∧ lcpLen a b ≤ b.le
       simp only [List.length_cons]; omega
     · simp
 
+/-- post-condition of a mutator that reports `mutated` -/
+structure PostL (H : Bytes → Bytes) (G : Bytes → Bytes → Prop) (hp : Heap) (g : Nat) (r : Bool) (fp : List Nat)
+    (a : Nat) (t t' : Trie) (res : Heap × Nat × Bool) : Prop where
+  out : Out H G hp g r fp res.1 t' res.2.1
+  same : res.2.2 = false → res.1 = hp ∧ res.2.1 = a ∧ t' = t
+
+theorem insertInLeaf_tree (H : Bytes → Bytes) (hH : ∀ m, (H m).length = 32) (G : Bytes → Bytes → Prop) (c : Ctx)
+    (hcH : c.H = H) {g : Nat} (hcg : c.g = g) {hp : Heap} {pk : Nibs} {lv : Bytes} {N : Node} {a : Nat}
+    {fp : List Nat} {r : Bool} (h : TI H G hp g r (.leaf pk lv) N a fp) (hflav : (c.troot == some a) = r)
+    (key : Nibs) (value : Bytes) :
+    PostL H G hp g r fp a (.leaf pk lv) (Trie.insertInLeaf pk lv key value)
+      (TrieHeap.insertInLeaf c hp a key value) := by
+  obtain ⟨hlt, hb, hpk, hv, hk, hfp⟩ := ti_leaf_elim h
+  have hfa : (hp.get a).gen = g → a ∈ fp := fun hg => by rw [hfp, ownL_own hg]; simp
+  have hprep : ∀ cv, Prepped hp g cv a (prepForMutation c cv hp a).1 (prepForMutation c cv hp a).2 :=
+    fun cv => prep_tree H hH G c hcH hcg cv hlt
+      (fun _ => ⟨_, _, h.rep, h.coh, by show 1 ≤ bigFuel + 1; omega⟩) hflav
+  have hnd : fp.Nodup := by rw [hfp]; unfold ownL; split <;> simp
+  have hsame : Out H G hp g r fp hp (.leaf pk lv) a :=
+    ⟨⟨N, fp, h, hnd, fun z hz => Or.inl hz⟩, FR.refl _ _⟩
+  have hcl := lcp_le key pk
+  unfold TrieHeap.insertInLeaf Trie.insertInLeaf
+  simp only []
+  rw [hpk]
+  by_cases e1 : pk = key
+  · simp only [if_pos e1]
+    by_cases e2 : (hp.get a).mbh = mustBeHashed c.ver value ∧ (hp.get a).val = some value
+    · rw [if_pos e2]
+      have : lv = value := by have := e2.2; rw [hv] at this; injection this
+      subst this
+      exact ⟨hsame, fun _ => ⟨rfl, rfl, rfl⟩⟩
+    · rw [if_neg e2]
+      have hpp := hprep false
+      generalize prepForMutation c false hp a = p at hpp ⊢
+      obtain ⟨p1, b⟩ := p
+      dsimp only at hpp ⊢
+      have hwb : Wr hp fp b := prepped_wr hpp hfa
+      have hgetb : (p1.modify b (fun x => { x with mbh := mustBeHashed c.ver value, val := some value })).get b =
+          { p1.get b with mbh := mustBeHashed c.ver value, val := some value } := by
+        rw [Heap.get_modify, if_pos ⟨rfl, hpp.lt⟩]
+      refine ⟨out_leaf ((hpp.fr.mono (sa_wr hfa)).trans (FR.modify p1 b _ hwb)) (by simpa using hpp.lt)
+        ?_ ?_ ?_ ?_ ?_ ?_ hwb, fun hf => Bool.noConfusion hf⟩
+      · rw [hgetb]; exact hpp.isBranch.trans hb
+      · rw [hgetb]; exact hpp.pk.trans hpk
+      · rw [hgetb]
+      · intro m; rw [hgetb]; show (p1.get b).kids m = none; rw [hpp.kids]; exact hk m
+      · rw [hgetb]; exact hpp.dirty
+      · rw [hgetb]; exact hpp.gen
+  · simp only [if_neg e1]
+    by_cases e2 : key.length = lcpLen key pk
+    · simp only [if_pos e2]
+      by_cases e3 : key.length < pk.length
+      · simp only [if_pos e3]
+        rcases hdr : pk.drop (lcpLen key pk) with _ | ⟨i, rest⟩
+        · exfalso
+          have := List.drop_eq_nil_iff.mp hdr
+          omega
+        · dsimp only
+          have hpp := hprep true
+          generalize prepForMutation c true hp a = p at hpp ⊢
+          obtain ⟨p1, b⟩ := p
+          dsimp only at hpp ⊢
+          have hwb : Wr hp fp b := prepped_wr hpp hfa
+          have hgetb : ∀ n, ((p1.modify b (fun x => { x with pk := rest })).alloc n).1.get b =
+              { p1.get b with pk := rest } := fun n => by
+            rw [Heap.get_alloc_lt (by simpa using hpp.lt), Heap.get_modify, if_pos ⟨rfl, hpp.lt⟩]
+          refine ⟨?_, fun hf => Bool.noConfusion hf⟩
+          refine out_branch (kn := upd (fun _ => Node.empty) i _) (fps := upd (fun _ => []) i [b])
+            (((hpp.fr.mono (sa_wr hfa)).trans (FR.modify p1 b _ hwb)).trans (FR.alloc _ _ _))
+            (by simp) ?_ ?_ ?_ ?_ ?_ ?_ ?_ ?_
+          · simp only [Heap.alloc_snd, Heap.get_alloc_self]; rfl
+          · simp only [Heap.alloc_snd, Heap.get_alloc_self]; rfl
+          · simp only [Heap.alloc_snd, Heap.get_alloc_self]
+          · simp only [Heap.alloc_snd, Heap.get_alloc_self]; rfl
+          · simp only [Heap.alloc_snd, Heap.get_alloc_self]; exact hcg
+          · intro m
+            simp only [Heap.alloc_snd, Heap.get_alloc_self]
+            refine kidTI_upd (fun m _ => kidTI_none H G _ g m) (kidTI_leaf (by simpa using Nat.lt_succ_of_lt hpp.lt)
+              ?_ ?_ ?_ ?_ ?_ ?_) m
+            · rw [hgetb]; exact hpp.isBranch.trans hb
+            · rw [hgetb]
+            · rw [hgetb]; exact (hpp.val rfl).trans hv
+            · intro m; rw [hgetb]; show (p1.get b).kids m = none; rw [hpp.kids]; exact hk m
+            · rw [hgetb]; exact hpp.dirty
+            · rw [hgetb]; exact hpp.gen
+          · refine (Fam.nil _ _).set i [b] (by simp) (fun x hx => ?_)
+            rw [List.mem_singleton.mp hx]
+            exact ⟨hwb, Nat.ne_of_lt (show b < (p1.modify b _).size by simpa using hpp.lt),
+              fun _ _ hm => (nomatch hm)⟩
+          · exact Or.inr (by show hp.size ≤ (p1.modify b _).size; rw [Heap.size_modify]; exact hpp.fr.size)
+      · simp only [if_neg e3]
+        refine ⟨?_, fun hf => Bool.noConfusion hf⟩
+        refine out_branch (kn := fun _ => Node.empty) (fps := fun _ => []) (FR.alloc _ _ _)
+          (by simp) ?_ ?_ ?_ ?_ ?_ ?_ (Fam.nil _ _) (Or.inr (Nat.le_refl _))
+        · simp only [Heap.alloc_snd, Heap.get_alloc_self]; rfl
+        · simp only [Heap.alloc_snd, Heap.get_alloc_self]; rfl
+        · simp only [Heap.alloc_snd, Heap.get_alloc_self]
+        · simp only [Heap.alloc_snd, Heap.get_alloc_self]; rfl
+        · simp only [Heap.alloc_snd, Heap.get_alloc_self]; exact hcg
+        · intro m
+          simp only [Heap.alloc_snd, Heap.get_alloc_self]
+          exact kidTI_none H G _ g m
+    · simp only [if_neg e2]
+      sorry
+
 end TrieHeap
 end Gossamer
